@@ -49,6 +49,7 @@ type msg struct {
 }
 
 type repCase struct {
+	srcs   []source // nil: one file with trusted_peers = raw
 	raw    []int
 	ops    []int
 	before []int
@@ -71,7 +72,7 @@ func msgsStr(ms []msg) string {
 }
 
 func (c repCase) String() string {
-	return fmt.Sprintf("C07 rep %s %s 0 %s %s", rawStr(c.raw), opsStr(c.ops), common.Ints(c.before), msgsStr(c.msgs))
+	return fmt.Sprintf("C07 rep %s %s 0 %s %s", srcsStr(c.raw, c.srcs), opsStr(c.ops), common.Ints(c.before), msgsStr(c.msgs))
 }
 
 type repWorld struct {
@@ -208,23 +209,16 @@ func (w *repWorld) run(c repCase, grace time.Duration) ([]int, string) {
 		}
 	}()
 	for i, n := range w.nodes {
-		var trusted []string
+		var cc *crdt.Consensus
+		var err error
 		switch {
 		case i == 0:
-			trusted = []string{}
-			for _, v := range c.raw {
-				if v < 0 {
-					trusted = append(trusted, "*")
-				} else {
-					trusted = append(trusted, peer.Encode(w.ids[v]))
-				}
-			}
+			cc, err = startCRDT(n, w.ids, name, c.raw, c.srcs)
 		case i <= nPub:
-			trusted = []string{peer.Encode(w.ids[0])}
+			cc, err = startCRDT(n, w.ids, name, []int{0}, nil)
 		default:
-			trusted = []string{"*"}
+			cc, err = startCRDT(n, w.ids, name, []int{-1}, nil)
 		}
-		cc, err := newCRDT(n, name, trusted)
 		if err != nil {
 			return nil, "setup: " + err.Error()
 		}
@@ -315,6 +309,11 @@ func genRep(r *common.Rng, k int) repCase {
 		return repCase{before: []int{11}, msgs: []msg{{1, 20, true}, {3, 11, false}}}
 	case 3: // everyone trusted
 		return repCase{raw: []int{-1}, before: []int{10}, msgs: []msg{{2, 20, true}, {3, 10, false}}}
+	case 4: // the defaults (trust everyone) restricted by an environment list
+		return repCase{srcs: []source{{kind: 'D'}, {kind: 'E', list: []int{1}}}, msgs: []msg{{2, 20, true}, {1, 21, true}}}
+	case 5: // a file with "*" restricted by an environment list
+		return repCase{srcs: []source{{kind: 'L', list: []int{-1}}, {kind: 'E', list: []int{2}}}, before: []int{10},
+			msgs: []msg{{3, 10, false}, {2, 20, true}}}
 	}
 	for n := r.Intn(3); n > 0; n-- {
 		if r.Chance(1, 14) {
@@ -324,6 +323,21 @@ func genRep(r *common.Rng, k int) repCase {
 		} else {
 			c.raw = append(c.raw, r.Range(1, nPub))
 		}
+	}
+	if r.Chance(2, 5) {
+		// the observer's configuration comes from several sources
+		c.srcs = genSrcs(r, func() []int {
+			var l []int
+			for n := r.Intn(3); n > 0; n-- {
+				if r.Chance(1, 10) {
+					l = append(l, -1)
+				} else {
+					l = append(l, r.Range(1, nPub))
+				}
+			}
+			return l
+		})
+		c.raw = nil
 	}
 	for n := r.Intn(4); n > 0; n-- {
 		p := r.Range(1, nPub)
@@ -360,13 +374,13 @@ func parseRep(f []string) (repCase, error) {
 	if len(f) < 5 || f[2] != "0" {
 		return c, fmt.Errorf("rep arity")
 	}
-	if c.raw, err = parseRaw(f[0]); err != nil {
+	if c.raw, c.srcs, err = parseSrcs(f[0]); err != nil {
 		return c, err
 	}
 	if c.ops, err = parseOps(f[1]); err != nil {
 		return c, err
 	}
-	for _, v := range append(append([]int{}, c.raw...), absAll(c.ops)...) {
+	for _, v := range append(srcPeerIdx(c.raw, c.srcs), absAll(c.ops)...) {
 		if v >= universe {
 			return c, fmt.Errorf("peer index out of range")
 		}
